@@ -129,3 +129,15 @@ CORPUS = [
 for m in CORPUS:
     if m.id == 'c19-transform-string-typo':
         m.expect = [('C19.T', 'store::transform=torchtree.distributions.SigmoidTransform')]
+CORPUS += [
+    Mut('c19-root-height-bounded-only-for-dated-tips', 'torchtree/cli/evolution.py', '', "            root_height[CONSTRAINT.LOWER.value] = offset\n            tree_model = ReparameterizedTimeTreeModel.json_factory(\n                id_, newick, \"taxa\", ratios=ratios, root_height=root_height, **kwargs\n",
+        "            if offset > 0.0:\n                root_height[CONSTRAINT.LOWER.value] = offset\n            tree_model = ReparameterizedTimeTreeModel.json_factory(\n                id_, newick, \"taxa\", ratios=ratios, root_height=root_height, **kwargs\n",
+        mode='text', expect=[('C19.U', 'bound-does-not-depend-on-the-data')]),
+    Mut('c19-empirical-rates-left-next-to-full', 'torchtree/cli/evolution.py', '', "                del rates[\"full\"]\n", "", mode='text',
+        expect=[('C19.I', 'list-valued-tensor-next-to-full')], note='the state of the tree before 51a10de'),
+    Mut('c19-growth-starts-at-zero-with-a-constant-initialisation', 'torchtree/cli/evolution.py', 'create_coalesent', 'growth = Parameter.json_factory(f\'{id_}.growth\', **{\'tensor\': [0.01]})',
+        "growth_value = 0.01\nif arg.coalescent_init == 'constant':\n    growth_value = 0.0\ngrowth = Parameter.json_factory(f'{id_}.growth', **{'tensor': [growth_value]})",
+        expect=[('C19.N', 'create_coalesent::growth-starts-off-the-singularity')]),
+    Mut('c19-benign-growth-starts-small-with-a-constant-initialisation', 'torchtree/cli/evolution.py', 'create_coalesent', 'growth = Parameter.json_factory(f\'{id_}.growth\', **{\'tensor\': [0.01]})',
+        "growth_value = 0.01\nif arg.coalescent_init == 'constant':\n    growth_value = 1e-06\ngrowth = Parameter.json_factory(f'{id_}.growth', **{'tensor': [growth_value]})", benign=True),
+]
